@@ -30,8 +30,9 @@ from .values import Arr2V, Blk, EnumV, ExcV, Lit, MapV, Obj, SeqV, SetV, Sym, Un
 class Scenario:
     """One type-case of the parameters: `make(ex)` builds the (symbolic) arguments."""
 
-    def __init__(self, name, make, requires=(), note="", concretize=None, thorough_only=False):
+    def __init__(self, name, make, requires=(), note="", concretize=None, thorough_only=False, pins=()):
         self.thorough_only = thorough_only  # explored only by the thorough tier (cost)
+        self.pins = list(pins)  # [{parameter name: value}]: inputs the native (bounded) evaluation always tries
         self.name = name
         self.make = make
         self.requires = list(requires)
@@ -387,14 +388,28 @@ class PathResult:
         self.trace = []
 
 
-def verify_scenario(world: World, ct: Contract, sc: Scenario, budget_ms=400, max_paths=4000):
-    """Symbolically execute the real body under one scenario; returns list[PathResult]."""
+SHARD_DEPTH = 22
+
+
+def _bucket(dec, nshards):
+    """which shard owns the paths whose first SHARD_DEPTH decisions are dec[:SHARD_DEPTH]"""
+    import zlib
+
+    return zlib.crc32(bytes(int(d) & 0xFF for d in dec[:SHARD_DEPTH])) % nshards
+
+
+def verify_scenario(world: World, ct: Contract, sc: Scenario, budget_ms=400, max_paths=4000, shard=0, nshards=1):
+    """Symbolically execute the real body under one scenario; returns list[PathResult].
+    With nshards > 1 the path tree is split by the first SHARD_DEPTH decisions: every shard walks the (small) top of the
+    tree, and below it only the sub-trees it owns, so the union over the shards is exactly the set of all paths."""
     fv = world.funcv(ct.func)
     results = []
     stack = [[]]
     npaths = 0
     while stack:
         dec = stack.pop()
+        if nshards > 1 and len(dec) >= SHARD_DEPTH and _bucket(dec, nshards) != shard:
+            continue
         npaths += 1
         if npaths > max_paths:
             r = PathResult()
@@ -501,6 +516,8 @@ def verify_scenario(world: World, ct: Contract, sc: Scenario, budget_ms=400, max
         except PyRaise as pr:  # raised while building arguments / evaluating clauses
             r.outcome = "unsupported"
             r.detail = f"exception {pr.exc.cls} outside the function body (contract evaluation)"
+            if os.environ.get("PYVC_DEBUG"):
+                traceback.print_exc()
         except z3.Z3Exception as ze:
             r.outcome = "unsupported"
             r.detail = f"z3 error: {ze}"
@@ -512,6 +529,7 @@ def verify_scenario(world: World, ct: Contract, sc: Scenario, budget_ms=400, max
         r.vcs = path.vcs if r.outcome not in ("infeasible",) or r.detail != "requires unsatisfiable" else []
         r.trace = path.trace
         r.pc = path.pc
-        results.append(r)
+        if nshards == 1 or _bucket(path.dec, nshards) == shard:
+            results.append(r)
         stack.extend(path.alts)
     return results
